@@ -606,7 +606,7 @@ theorem object_set_comparisons (k : KState) (h : k.toV.Inv) (o : List PyKey) :
 
 /-- the `abc.Set` operators over objects return sound `Variables`: `v - o` = the labels of `v` not in `o` (order of
     `v`); `v & o` = the labels of `o` that are in `v`, order of `o`, first occurrences; `v | o` = `v` then the new labels
-    of `o`; `v ^ o` = `(v - o)` then the labels of `o` not in `v` -/
+    of `o`; `v ^ o` = `(v - o)` then the labels of `o` (first occurrences) not in `v` -/
 theorem object_set_operators (k : KState) (h : k.toV.Inv) (o : List PyKey) :
     ((k.sub o).toV.Inv ∧ (k.sub o).toV.abs = k.toV.abs.filter fun x => !decide (x ∈ o.map PyKey.canon)) ∧
     ((k.and o).toV.Inv ∧ (k.and o).toV.abs =
@@ -614,7 +614,7 @@ theorem object_set_operators (k : KState) (h : k.toV.Inv) (o : List PyKey) :
     ((k.or o).toV.Inv ∧ (k.or o).toV.abs = (LSpec.extend [] ((k.toV.abs ++ o.map PyKey.canon).map some) true).1) ∧
     ((k.xor o).toV.Inv ∧ (k.xor o).toV.abs = (LSpec.extend []
       (((k.toV.abs.filter fun x => !decide (x ∈ o.map PyKey.canon)) ++
-        (LSpec.extend [] (((o.map PyKey.canon).filter fun x => !decide (x ∈ k.toV.abs)).map some) true).1).map some) true).1) :=
+        ((LSpec.extend [] ((o.map PyKey.canon).map some) true).1.filter fun x => !decide (x ∈ k.toV.abs))).map some) true).1) :=
   ⟨KState.sub_abs k h o, KState.and_abs k h o, KState.or_abs k h o, KState.xor_abs k h o⟩
 
 /-- `_from_iterable` of pairwise different labels is that list (so `&` of a duplicate-free `o` is the plain filter) -/
